@@ -202,3 +202,159 @@ Proof.
   intros H Ha Hb E. pose proof (proj1 (NoDup_nth s 0%nat) (is_perm_nodup _ _ H)) as N.
   apply N; rewrite ?(is_perm_length _ _ H); assumption.
 Qed.
+
+(** * Part 2: least squares *)
+Lemma dot_Qsum a b : dot a b == Qsum (map (fun p => fst p * snd p) (combine a b)).
+Proof.
+  revert b. induction a as [|x a IH]; intros [|y b]; cbn; try reflexivity. rewrite IH. reflexivity.
+Qed.
+
+(** a dot product does not depend on the order of its (paired) terms *)
+Lemma dot_perm a b a' b' : Permutation (combine a b) (combine a' b') -> dot a b == dot a' b'.
+Proof. intros H. rewrite !dot_Qsum. apply QList.Qsum_perm. apply Permutation_map. exact H. Qed.
+
+Lemma combine_map_same {A B C} (f : A -> B) (g : A -> C) l :
+  combine (map f l) (map g l) = map (fun x => (f x, g x)) l.
+Proof. induction l as [|x t IH]; [reflexivity|]. cbn. rewrite IH. reflexivity. Qed.
+
+Lemma bundle_rA A d w : length d = length A -> length w = length A -> rA (bundle A d w) = A.
+Proof.
+  revert d w. induction A as [|r A IH]; intros [|x d] [|y w] Hd Hw; try discriminate; [reflexivity|].
+  cbn. f_equal. apply IH; cbn in *; lia.
+Qed.
+Lemma bundle_rD A d w : length d = length A -> length w = length A -> rD (bundle A d w) = d.
+Proof.
+  revert d w. induction A as [|r A IH]; intros [|x d] [|y w] Hd Hw; try discriminate; [reflexivity|].
+  cbn. f_equal. apply IH; cbn in *; lia.
+Qed.
+Lemma bundle_rW A d w : length d = length A -> length w = length A -> rW (bundle A d w) = w.
+Proof.
+  revert d w. induction A as [|r A IH]; intros [|x d] [|y w] Hd Hw; try discriminate; [reflexivity|].
+  cbn. f_equal. apply IH; cbn in *; lia.
+Qed.
+
+(** the weighted misfit vector  W (A p - d) *)
+Definition uvec (A : list (list Q)) (d w p : list Q) : list Q := vmul w (vsub (mv A p) d).
+
+Lemma uvec_bundle B p :
+  uvec (rA B) (rD B) (rW B) p = map (fun b => snd (snd b) * (dot (fst b) p - fst (snd b))) B.
+Proof. induction B as [|b B IH]; [reflexivity|]. cbn. unfold uvec, rA, rD, rW, mv in IH. rewrite IH. reflexivity. Qed.
+
+Lemma wfm_perm n A A' : Permutation A A' -> wfm n A -> wfm n A'.
+Proof. intros P H. unfold wfm in *. eapply Permutation_Forall; eassumption. Qed.
+
+Lemma rA_perm B B' : Permutation B B' -> Permutation (rA B) (rA B').
+Proof. apply Permutation_map. Qed.
+
+(** A^T W (A p - d) is a sum over the rows: any simultaneous reordering of
+    (Jacobian rows, data, weights) leaves it unchanged *)
+Lemma tmv_perm n B B' p : Permutation B B' -> wfm n (rA B) ->
+  veq (tmv n (rA B) (uvec (rA B) (rD B) (rW B) p)) (tmv n (rA B') (uvec (rA B') (rD B') (rW B') p)).
+Proof.
+  intros P HA. assert (HA': wfm n (rA B')) by (eapply wfm_perm; [apply rA_perm|]; eassumption).
+  apply veq_of_nth; [rewrite !length_tmv by assumption; reflexivity|].
+  intros j _. rewrite !nth_tmv by assumption. apply dot_perm.
+  rewrite !uvec_bundle. unfold col, rA. rewrite !map_map, !combine_map_same.
+  apply Permutation_map. exact P.
+Qed.
+
+Theorem normal_residual_perm n B B' alpha s2 p : Permutation B B' -> wfm n (rA B) ->
+  veq (normal_residual n (rA B) (rD B) (rW B) alpha s2 p) (normal_residual n (rA B') (rD B') (rW B') alpha s2 p).
+Proof.
+  intros P HA. unfold normal_residual. apply vadd_proper; [|reflexivity].
+  apply (tmv_perm n B B' p P HA).
+Qed.
+
+(** column scales (population variance of each Jacobian column) *)
+Lemma mean_perm l l' : Permutation l l' -> LeastSquares.mean l == LeastSquares.mean l'.
+Proof.
+  intros P. unfold LeastSquares.mean, LeastSquares.Qlen. rewrite (QList.Qsum_perm _ _ P), (Permutation_length P). reflexivity.
+Qed.
+Lemma Qsum_sqdev_m m m' l : m == m' ->
+  Qsum (map (fun x => (x - m) * (x - m)) l) == Qsum (map (fun x => (x - m') * (x - m')) l).
+Proof. intros E. induction l as [|x t IH]; cbn; [reflexivity|]. rewrite IH, E. reflexivity. Qed.
+Lemma pvar_perm l l' : Permutation l l' -> pvar l == pvar l'.
+Proof.
+  intros P. unfold pvar, LeastSquares.Qlen. rewrite (Qsum_sqdev_m _ _ l (mean_perm _ _ P)).
+  rewrite (QList.Qsum_perm _ _ (Permutation_map (fun x => (x - LeastSquares.mean l') * (x - LeastSquares.mean l')) P)).
+  rewrite (Permutation_length P). reflexivity.
+Qed.
+Lemma scale2_of_eq a b : a == b -> (if Qeqb a 0 then 1 else a) == (if Qeqb b 0 then 1 else b).
+Proof.
+  intros E. destruct (Qeqb a 0) eqn:Ea, (Qeqb b 0) eqn:Eb; try reflexivity; try exact E; exfalso.
+  - apply Qeqb_spec in Ea. assert (Qeqb b 0 = true) by (apply Qeqb_spec; rewrite <- E; exact Ea). congruence.
+  - apply Qeqb_spec in Eb. assert (Qeqb a 0 = true) by (apply Qeqb_spec; rewrite E; exact Eb). congruence.
+Qed.
+Lemma scale2_of_perm l l' : Permutation l l' -> scale2_of l == scale2_of l'.
+Proof. intros P. unfold scale2_of. apply scale2_of_eq, pvar_perm, P. Qed.
+Lemma Forall2_map_same {A} (R : Q -> Q -> Prop) (f g : A -> Q) l :
+  (forall x, In x l -> R (f x) (g x)) -> Forall2 R (map f l) (map g l).
+Proof.
+  induction l as [|x t IH]; intros H; cbn; constructor.
+  - apply H. left; reflexivity.
+  - apply IH. intros y Hy. apply H. right; exact Hy.
+Qed.
+Theorem scale2_perm n A A' : Permutation A A' -> veq (scale2 n A) (scale2 n A').
+Proof.
+  intros P. unfold scale2. apply Forall2_map_same. intros j _.
+  apply scale2_of_perm. unfold col. apply Permutation_map. exact P.
+Qed.
+
+Lemma normal_residual_s2_proper n A d w alpha s2 s2' p : veq s2 s2' ->
+  veq (normal_residual n A d w alpha s2 p) (normal_residual n A d w alpha s2' p).
+Proof.
+  intros E. unfold normal_residual. apply vadd_proper; [reflexivity|].
+  apply vscale_proper; [reflexivity|]. apply vmul_proper; [exact E|reflexivity].
+Qed.
+
+(** reordering the data points (rows of the system, with their data and
+    weights) does not change the set of solutions, column scales included *)
+Theorem normal_eq_perm n B B' alpha p : Permutation B B' -> wfm n (rA B) ->
+  (normal_eq n (rA B) (rD B) (rW B) alpha (scale2 n (rA B)) p <->
+   normal_eq n (rA B') (rD B') (rW B') alpha (scale2 n (rA B')) p).
+Proof.
+  intros P HA. unfold normal_eq.
+  assert (E: veq (normal_residual n (rA B) (rD B) (rW B) alpha (scale2 n (rA B)) p)
+                 (normal_residual n (rA B') (rD B') (rW B') alpha (scale2 n (rA B')) p)).
+  { rewrite (normal_residual_perm n B B' alpha _ p P HA).
+    apply normal_residual_s2_proper. apply scale2_perm, rA_perm, P. }
+  rewrite E. reflexivity.
+Qed.
+
+Lemma Forall_perm_map {A} (P : Q -> Prop) (f : A -> Q) l l' : Permutation l l' -> Forall P (map f l) -> Forall P (map f l').
+Proof. intros Hp. apply Permutation_Forall. apply Permutation_map. exact Hp. Qed.
+
+(** hence the fitted parameters - and with them every prediction - are those
+    of the original ordering: damped fit ... *)
+Theorem ls_fit_perm_damped n B B' alpha p p' : Permutation B B' ->
+  wfm n (rA B) -> length p = n -> length p' = n ->
+  Forall (fun x => 0 <= x) (rW B) -> 0 < alpha ->
+  normal_eq n (rA B) (rD B) (rW B) alpha (scale2 n (rA B)) p ->
+  normal_eq n (rA B') (rD B') (rW B') alpha (scale2 n (rA B')) p' ->
+  veq p' p /\ forall Qm, veq (mv Qm p') (mv Qm p).
+Proof.
+  intros P HA Hp Hp' Hw Ha N N'.
+  apply (normal_eq_perm n B B' alpha p' P HA) in N'.
+  assert (E: veq p' p).
+  { apply (optimal_unique_damped n (rA B) (rD B) (rW B) alpha (scale2 n (rA B))); try assumption.
+    - unfold ls_shapes, rA, rD, rW. rewrite !map_length, scale2_length. repeat split; try assumption.
+    - apply scale2_pos. }
+  split; [exact E|]. intros Qm. rewrite E. reflexivity.
+Qed.
+
+(** ... and undamped fit with an injective Jacobian *)
+Theorem ls_fit_perm_injective n B B' p p' : Permutation B B' ->
+  wfm n (rA B) -> length p = n -> length p' = n ->
+  Forall (fun x => 0 < x) (rW B) -> injective_on n (rA B) ->
+  normal_eq n (rA B) (rD B) (rW B) 0 (scale2 n (rA B)) p ->
+  normal_eq n (rA B') (rD B') (rW B') 0 (scale2 n (rA B')) p' ->
+  veq p' p /\ forall Qm, veq (mv Qm p') (mv Qm p).
+Proof.
+  intros P HA Hp Hp' Hw Hinj N N'.
+  apply (normal_eq_perm n B B' 0 p' P HA) in N'.
+  assert (E: veq p' p).
+  { apply (optimal_unique_injective n (rA B) (rD B) (rW B) (scale2 n (rA B))); try assumption.
+    - unfold ls_shapes, rA, rD, rW. rewrite !map_length, scale2_length. repeat split; try assumption.
+    - eapply Forall_impl; [|apply scale2_pos]. intros a Ha; simpl in Ha; lra. }
+  split; [exact E|]. intros Qm. rewrite E. reflexivity.
+Qed.
